@@ -1,7 +1,8 @@
 //! CNF-side cases on the REAL code: Cnf::eval / is_sat_partial against the propositional definition, and
 //! PartialModel bookkeeping against a reference vector of Option<bool>.
 use crate::CaseResult;
-use rsdd::repr::{Cnf, Literal, PartialModel, VarLabel, WmcParams};
+use rsdd::repr::{Cnf, Literal, PartialModel, VarLabel, VarSet, WmcParams};
+use std::collections::BTreeSet;
 use rsdd::util::semirings::{FiniteField, Semiring};
 use std::collections::HashMap;
 use serde_json::{json, Value};
@@ -71,6 +72,54 @@ pub fn run(c: &Value) -> CaseResult {
             if got != want { return Err(format!("wmc = {got}, the sum over the {} assignments of {} variables is {want}", 1u32 << nv, nv)); }
             Ok(())
         }
+        "varset_ops" => {
+            // VarSet against BTreeSet: union / union_with / minus / intersect_varset / difference / iter / len / is_empty
+            let mk = |v: &Value| -> (VarSet, BTreeSet<u64>) {
+                let mut vs = VarSet::new(); let mut bs = BTreeSet::new();
+                for x in v.as_array().cloned().unwrap_or_default() { let x = x.as_u64().unwrap_or(0); vs.insert(VarLabel::new(x)); bs.insert(x); }
+                (vs, bs)
+            };
+            let ((a, sa), (b, sb)) = (mk(&c["a"]), mk(&c["b"]));
+            let view = |v: &VarSet| -> BTreeSet<u64> { v.iter().map(|l| l.value()).collect() };
+            let chk = |what: &str, got: BTreeSet<u64>, want: BTreeSet<u64>| -> CaseResult { if got == want { Ok(()) } else { Err(format!("VarSet {what}: got {:?}, the set-theoretic result is {:?}", got, want)) } };
+            chk("iter", view(&a), sa.clone())?;
+            chk("union", view(&a.union(&b)), sa.union(&sb).cloned().collect())?;
+            chk("minus", view(&a.minus(&b)), sa.difference(&sb).cloned().collect())?;
+            chk("intersect_varset", view(&a.intersect_varset(&b)), sa.intersection(&sb).cloned().collect())?;
+            chk("difference", a.difference(&b).map(|l| l.value()).collect(), sa.difference(&sb).cloned().collect())?;
+            let mut u = a.clone(); u.union_with(&b);
+            chk("union_with", view(&u), sa.union(&sb).cloned().collect())?;
+            if a.len() != sa.len() || a.is_empty() != sa.is_empty() { return Err(format!("VarSet len/is_empty: {} / {}, the set has {} elements", a.len(), a.is_empty(), sa.len())); }
+            for x in 0..10u64 { if a.contains(VarLabel::new(x)) != sa.contains(&x) { return Err(format!("VarSet contains({x}) wrong")); } }
+            Ok(())
+        }
+        "pm_build" => {
+            // PartialModel constructors and iterators against a vector of Option<bool>
+            let pa: Vec<Option<bool>> = c["a"].as_array().map(|x| x.iter().map(|b| b.as_bool()).collect()).unwrap_or_default();
+            let pb: Vec<Option<bool>> = c["b"].as_array().map(|x| x.iter().map(|b| b.as_bool()).collect()).unwrap_or_default();
+            let n = pa.len();
+            let m = PartialModel::from_assignments(&pa);
+            let lits: Vec<Literal> = pa.iter().enumerate().filter_map(|(i, v)| v.map(|v| Literal::new(VarLabel::new(i as u64), v))).collect();
+            let m2 = PartialModel::from_litvec(&lits, n);
+            let total: Vec<bool> = pa.iter().map(|v| v.unwrap_or(false)).collect();
+            let m3 = PartialModel::from_total_model(&total);
+            for i in 0..n {
+                let l = VarLabel::new(i as u64);
+                if m.get(l) != pa[i] { return Err(format!("from_assignments: get({i}) = {:?}, expected {:?}", m.get(l), pa[i])); }
+                if m2.get(l) != pa[i] { return Err(format!("from_litvec: get({i}) = {:?}, expected {:?}", m2.get(l), pa[i])); }
+                if m3.get(l) != Some(total[i]) { return Err(format!("from_total_model: get({i}) = {:?}, expected {:?}", m3.get(l), Some(total[i]))); }
+            }
+            let got: BTreeSet<(u64, bool)> = m.assignment_iter().map(|l| (l.label().value(), l.polarity())).collect();
+            let want: BTreeSet<(u64, bool)> = pa.iter().enumerate().filter_map(|(i, v)| v.map(|v| (i as u64, v))).collect();
+            if got != want || m.assignment_iter().count() != want.len() { return Err(format!("assignment_iter yields {:?}, the assigned literals are {:?}", got, want)); }
+            // difference: literals of a that are not literals of b
+            let mb = PartialModel::from_assignments(&pb);
+            let gd: BTreeSet<(u64, bool)> = m.difference(&mb).map(|l| (l.label().value(), l.polarity())).collect();
+            let wb: BTreeSet<(u64, bool)> = pb.iter().enumerate().filter_map(|(i, v)| v.map(|v| (i as u64, v))).collect();
+            let wd: BTreeSet<(u64, bool)> = want.difference(&wb).cloned().collect();
+            if gd != wd { return Err(format!("difference yields {:?}, expected {:?}", gd, wd)); }
+            Ok(())
+        }
         "pm_ops" => {
             let n = c["nvars"].as_u64().unwrap_or(4) as usize;
             let mut m = PartialModel::new(n);
@@ -126,6 +175,15 @@ pub fn candidates(seed: u64) -> Vec<Value> {
         out.push(json!({"case": "cnf_condition", "cnf": cnf, "lit": if nx(2) == 0 { l } else { -l }, "nvars": 4}));
         let w: Vec<Vec<u64>> = (0..4).map(|_| vec![nx(50), nx(50)]).collect();
         out.push(json!({"case": "cnf_wmc", "cnf": cnf, "weights": w}));
+    }
+    for _ in 0..300 {
+        let a: Vec<u64> = (0..nx(6)).map(|_| nx(10)).collect();
+        let b: Vec<u64> = (0..nx(6)).map(|_| nx(10)).collect();
+        out.push(json!({"case": "varset_ops", "a": a, "b": b}));
+        let opt = |k: u64| match k { 0 => Value::Null, 1 => json!(true), _ => json!(false) };
+        let pa: Vec<Value> = (0..5).map(|_| opt(nx(3))).collect();
+        let pb: Vec<Value> = (0..5).map(|_| opt(nx(3))).collect();
+        out.push(json!({"case": "pm_build", "a": pa, "b": pb}));
     }
     for _ in 0..300 {
         let ops: Vec<Value> = (0..8).map(|_| if nx(3) == 0 { json!(["unset", nx(4)]) } else { json!(["set", nx(4), nx(2) == 0]) }).collect();
